@@ -24,13 +24,7 @@ Decoders == {"userauth", "exec", "winsize", "pfaddr", "intent", "confdenial", "t
 ByteClasses == {"empty", "truncated-header", "truncated-body", "length-gt-remaining", "length-max", "unknown-enum", "valid", "random"}
 DecoderEdges == Decoders \X ByteClasses
 
-(* The session layer: which tubes an admitted peer opens, in which order, and what it does with each.  The session's *)
-(* accept loop dispatches on the tube type and, for execution, expects a second tube right behind the first.       *)
-OpenTypes == {1, 2, 3, 4, 5, 6, 7, 200}          \* exec, authgrant, principal proxy, userauth, pf control, pf data, winsize, unknown
-OpenItems == [t : OpenTypes, r : {"rel", "unrel"}, a : {"idle", "junk", "close"}]
-OpenSeqs2    == {<<x>> : x \in OpenItems} \cup {<<x, y>> : x, y \in OpenItems}
-OpenSeqs     == OpenSeqs2                        \* replaced by OpenSeqsDeep in the thorough configuration
-OpenSeqsDeep == OpenSeqs2 \cup {<<x, y, z>> : x, y, z \in {i \in OpenItems : i.a = "junk"}}
+(* The session layer (which tubes an admitted peer opens, in which order) is HopSession.tla.                    *)
 
 VARIABLES others, stoppable, own
 vars == <<others, stoppable, own>>
@@ -44,5 +38,4 @@ OthersIntact == others = "intact"
 Stoppable == stoppable
 Emit == PrintT(<<"EDGES", ToJson([frames |-> {[t |-> e[1], l |-> e[2], a |-> e[3], n |-> e[4]] : e \in FrameEdges},
                                    decoders |-> {[d |-> e[1], c |-> e[2]] : e \in DecoderEdges}])>>)
-        /\ PrintT(<<"OPENS", ToJson(OpenSeqs)>>)
 =============================================================================
